@@ -28,6 +28,8 @@ macro_rules! exception {
             concat!("exception: ", $fmt, ", exiting")
             $($tt)*
         );
+        #[cfg(lace_verif)]
+        crate::verif::exit(0xEE);
         std::process::exit(0xEE);
     }};
 }
@@ -128,12 +130,16 @@ impl RunEnvironment {
     /// Run with preset memory
     pub fn run(&mut self) {
         loop {
+            #[cfg(lace_verif)]
+            crate::verif::loop_top(&self.state, self.debugger.is_some());
             if let Some(debugger) = &mut self.debugger {
                 Output::Debugger(Condition::Always, Default::default()).start_new_line();
 
                 match debugger.next_action(&mut self.state) {
                     Action::Proceed => (),
                     Action::StopDebugger => {
+                        #[cfg(lace_verif)]
+                        crate::verif::detach();
                         dprintln!(Sometimes, Warning, "Stopping debugger.");
                         // Go to start of next loop iteration, without debugger
                         self.debugger = None;
@@ -182,9 +188,13 @@ impl RunEnvironment {
             }
 
             let instr = self.state.mem[self.state.pc as usize];
+            #[cfg(lace_verif)]
+            let verif_pc = self.state.pc;
             // PC incremented before instruction is performed
             self.state.pc += 1;
             self.state.execute(instr);
+            #[cfg(lace_verif)]
+            crate::verif::executed(&self.state, verif_pc, instr);
         }
 
         Output::Normal.start_new_line();
@@ -306,6 +316,8 @@ impl RunState {
                 Halting...\
                 "
             );
+            #[cfg(lace_verif)]
+            crate::verif::exit(1);
             std::process::exit(1);
         }
 
@@ -533,6 +545,8 @@ impl RunState {
             0x25 => {
                 self.pc = HALT_ADDRESS;
                 println!("\n{:>12}", "Halted".cyan());
+                #[cfg(lace_verif)]
+                crate::verif::halt_banner();
             }
             // putn
             0x26 => {
@@ -580,18 +594,78 @@ fn read_char() -> char {
 /// Handles `UnexpectedEof` by printing error minimally and exiting.
 /// Panics on any other error.
 fn read_byte_stdin(mut stdin: io::Stdin) -> u8 {
+    #[cfg(lace_verif)]
+    if let Some(byte) = crate::verif::input_byte() {
+        return byte;
+    }
     let mut buf = [0; 1];
     if let Err(err) = stdin.read_exact(&mut buf) {
         if let io::ErrorKind::UnexpectedEof = err.kind() {
             // This should NOT use `exception!`: it is an error with the
             // emulator, not the CPU
             eprintln!("unexpected end of input file stream.");
+            #[cfg(lace_verif)]
+            crate::verif::exit(1);
             std::process::exit(1);
         } else {
             panic!("failed to read character from stdin: {:?}", err)
         }
     }
     buf[0]
+}
+
+#[cfg(lace_verif)]
+impl RunState {
+    pub(crate) fn verif_snapshot(&self) -> crate::verif::Snapshot {
+        crate::verif::Snapshot {
+            reg: self.reg,
+            pc: self.pc,
+            cc: self.flag as u8,
+            orig: self.orig,
+            mem: self.mem.clone(),
+        }
+    }
+
+    pub(crate) fn verif_restore(&mut self, snap: &crate::verif::Snapshot) {
+        self.reg = snap.reg;
+        self.pc = snap.pc;
+        self.flag = match snap.cc {
+            0b100 => RunFlag::N,
+            0b010 => RunFlag::Z,
+            0b001 => RunFlag::P,
+            _ => RunFlag::Uninit,
+        };
+        self.orig = snap.orig;
+        self.mem = snap.mem.clone();
+    }
+}
+
+#[cfg(lace_verif)]
+impl RunEnvironment {
+    /// Copy of the complete machine state.
+    pub fn verif_snapshot(&self) -> crate::verif::Snapshot {
+        self.state.verif_snapshot()
+    }
+
+    /// Overwrite the complete machine state.
+    pub fn verif_restore(&mut self, snap: &crate::verif::Snapshot) {
+        self.state.verif_restore(snap);
+    }
+
+    /// Execute one instruction word on the current state, as the run loop does after fetching it
+    /// (the caller has already incremented the PC).
+    pub fn verif_execute(&mut self, instr: u16) {
+        self.state.execute(instr);
+    }
+
+    pub fn verif_has_debugger(&self) -> bool {
+        self.debugger.is_some()
+    }
+
+    /// Current breakpoint list of the attached debugger, in list order: `(address, predefined)`.
+    pub fn verif_breakpoints(&self) -> Option<Vec<(u16, bool)>> {
+        self.debugger.as_ref().map(|d| d.verif_breakpoints())
+    }
 }
 
 #[cfg(test)]
